@@ -246,6 +246,9 @@ func (x *Exec) havocLoop(st *State, fn *ssa.Function, l *Loop, lc *LoopContract)
 					cur = c.X
 					continue
 				case *ssa.IndexAddr:
+					if x.exploded(x.elemTypeOfIndexAddr(c)) {
+						break
+					}
 					first = c
 					cur = c.X
 					if _, ok := types.Unalias(c.X.Type()).Underlying().(*types.Pointer); ok {
@@ -264,7 +267,15 @@ func (x *Exec) havocLoop(st *State, fn *ssa.Function, l *Loop, lc *LoopContract)
 				x.noteElem(arrays, x.elemSortOfIndexAddr(f))
 			}
 		case *ssa.IndexAddr:
-			x.noteElem(arrays, x.elemSortOfIndexAddr(a))
+			if et := x.elemTypeOfIndexAddr(a); x.exploded(et) {
+				stt := types.Unalias(et).Underlying().(*types.Struct)
+				for i := 0; i < stt.NumFields(); i++ {
+					n, vs := x.TM.FieldArray(et, stt, i)
+					arrays[n] = "(Array Int " + vs + ")"
+				}
+			} else {
+				x.noteElem(arrays, x.elemSortOfIndexAddr(a))
+			}
 		default:
 			// store through a plain pointer value
 			if pt, ok := types.Unalias(addr.Type()).Underlying().(*types.Pointer); ok {
@@ -420,6 +431,7 @@ func (x *Exec) havocLoop(st *State, fn *ssa.Function, l *Loop, lc *LoopContract)
 	// allocation counter
 	nb := x.D.Fresh("A", SInt)
 	st.Assume(fmt.Sprintf("(>= %s %s)", nb, st.AllocTerm()))
+	noteAllocBase(nb, st.AllocBase, st.AllocOff)
 	st.AllocBase, st.AllocOff = nb, 0
 	// iterators of map ranges: visited set
 	if l.IsMapRange {
@@ -446,7 +458,31 @@ func (x *Exec) noteModArrays(callee *ssa.Function, fc *FuncContract, ms string, 
 	ms = strings.TrimSpace(ms)
 	// resolve statically by type of the expression root where possible; fall back to havoc-all
 	switch {
-	case strings.HasSuffix(ms, "[*]"), strings.HasSuffix(ms, "{}"), strings.HasPrefix(ms, "*"):
+	case strings.HasPrefix(ms, "*") && strings.Contains(ms, "type(*"):
+		// *unbox(x, type(*T)): the cell/object arrays of T
+		i := strings.Index(ms, "type(*")
+		j := matchParen(ms, i+4)
+		if j > 0 {
+			if t, err := x.P.ResolveType(ms[i+6:j], x.P.FileOf[fc]); err == nil {
+				x.noteObjectArrays(t, arrays)
+				return
+			}
+		}
+		*allHeap = true
+	case strings.HasPrefix(ms, "*"):
+		root := strings.TrimSpace(ms[1:])
+		if callee != nil {
+			for _, p := range callee.Params {
+				if p.Name() == root {
+					if pt, ok := types.Unalias(p.Type()).Underlying().(*types.Pointer); ok {
+						x.noteObjectArrays(pt.Elem(), arrays)
+						return
+					}
+				}
+			}
+		}
+		*allHeap = true
+	case strings.HasSuffix(ms, "[*]"), strings.HasSuffix(ms, "{}"):
 		*allHeap = true
 	default:
 		if i := strings.LastIndex(ms, "."); i > 0 {
@@ -509,4 +545,30 @@ func (x *Exec) noteCell(arrays map[string]string, s string) {
 func (x *Exec) noteMap(arrays map[string]string, ks, vs string) {
 	arrays[x.TM.MapHas(ks, vs)] = fmt.Sprintf("(Array Int (Array %s Bool))", ks)
 	arrays[x.TM.MapVal(ks, vs)] = fmt.Sprintf("(Array Int (Array %s %s))", ks, vs)
+}
+
+func (x *Exec) elemTypeOfIndexAddr(a *ssa.IndexAddr) types.Type {
+	switch u := types.Unalias(a.X.Type()).Underlying().(type) {
+	case *types.Slice:
+		return u.Elem()
+	case *types.Pointer:
+		return types.Unalias(u.Elem()).Underlying().(*types.Array).Elem()
+	}
+	return types.Typ[types.Int]
+}
+
+// noteObjectArrays: all heap arrays that hold an object of type t.
+func (x *Exec) noteObjectArrays(t types.Type, arrays map[string]string) {
+	if stt, ok := types.Unalias(t).Underlying().(*types.Struct); ok && !isTime(t) && !x.TM.IsOpaqueStruct(t) {
+		for i := 0; i < stt.NumFields(); i++ {
+			n, vs := x.TM.FieldArray(t, stt, i)
+			arrays[n] = "(Array Int " + vs + ")"
+		}
+		return
+	}
+	if arr, ok := types.Unalias(t).Underlying().(*types.Array); ok {
+		x.noteElem(arrays, x.TM.Sort(arr.Elem()))
+		return
+	}
+	x.noteCell(arrays, x.TM.Sort(t))
 }
